@@ -168,7 +168,13 @@ KindCaptiveTr == C("kindcaptivetr", <<R("r0", SC, 2, "a", "ctorerr", FALSE, <<>>
 KeyedBuiltinDep == C("keyedbuiltindep", <<R("r1", SG, 0, "a", "ctorerr", FALSE, <<>>),
                                           R("r2", SC, 1, "a", "ctorerr", TRUE, <<PBK("ctx")>>)>>)
 KeyedBuiltinDepTr == C("keyedbuiltindeptr", <<R("r1", TR, 1, "a", "ctorerr", TRUE, <<PBK("ctx")>>)>>)
-CfgKinds == KindCfgs
+\* a singleton whose constructor uses the Scope it is handed (opens a child scope, asks it for every singleton type)
+\* while Build is still running, next to singletons that take the built-ins themselves
+Reentrant == C("reentrant", <<Kinded(R("r1", SG, 0, "a", "ctorerr", FALSE, B3), "reentrant"),
+                              R("r2", SG, 1, "a", "ctorerr", FALSE, B3),
+                              R("r3", SG, 2, "a", "ctorerr", TRUE, B3),
+                              R("r4", SC, 3, "a", "ctorerr", FALSE, <<P("S1")>>)>>)
+CfgKinds == KindCfgs \cup {Reentrant}
 
 \* result object with a group field; multiple returns combined with Name / Group
 OutKG == C("outkg", <<Two(R("r1", SC, 0, "a", "outkg", FALSE, <<>>), 1),
@@ -386,7 +392,7 @@ CfgBasic == {Basic}
 CfgBuiltinFaults == Sane(BuiltinFaulty)
 CfgRemovedAll == CfgRemoved \cup CfgRemovedDefective
 CfgRelease == {Basic, Chain, Inits, Multi, Diamond2}
-CfgBuiltin == {Builtin}
+CfgBuiltin == {Builtin, Reentrant}
 CfgAll == Plain \cup Defective
 CfgFaults == Faulty
 CfgNil == NilFaulty
